@@ -5,7 +5,7 @@ oracle: explicit masked reductions (sum/count/min/... written with np.where
 on plain copies) and numpy.ma.apply_along_axis for 1-D callables."""
 import numpy as np
 
-from .. import gen_core, gen_ioapi, ops, snapshot
+from .. import gen_core, gen_ioapi, harness, ops, snapshot
 from ..cli import digest
 
 PROP = 'C03'
@@ -88,7 +88,9 @@ def gen(rng, idx, tier, seed):
                    str(rng.choice(PERM))]
             if not ok(fns[1], chosen[1][1]):
                 fns[1] = fns[0]
-    spec = {'file': fs, 'apply': [[c[0], f] for c, f in zip(chosen, fns)]}
+    spec = {'file': fs, 'apply': [[c[0], f] for c, f in zip(chosen, fns)],
+            # the receiver is a file on disk (saved, opened again)
+            'disk': bool(idx % 5 == 2)}
     if not ioapi and len(chosen) == 1 and idx % 3 == 1:
         # the command-line string forms of core/_functions.py
         if idx % 2 == 1 and chosen[0][1] >= 1:
@@ -173,6 +175,11 @@ def ref_callable(data, mask, ax, fn):
 
 
 def run(spec, res):
+    with harness.casedir() as d, harness.handles() as h:
+        run_in(spec, res, d, h)
+
+
+def run_in(spec, res, d, h):
     f = build(spec['file'])
     if spec.get('form') == 'reduce_dim':
         # a dimension whose name EXTENDS the reduced one (levp1 next to lev):
@@ -183,6 +190,12 @@ def run(spec, res):
             f.createDimension(d0 + 'p1', 3)
             dv = f.createVariable('decoy', 'f', (d0 + 'p1',))
             dv[:] = [1.5, 2.5, 4.0]
+    if spec.get('disk'):
+        g = harness.to_disk(f, d, h, fmt='ioapi' if 'ioapi' in spec['file']
+                            else 'netcdf')
+        if g is not None:
+            f = g
+            res.facet('source:disk')
     before = snapshot.snap_file(f)
     ioapi = 'ioapi' in spec['file']
     fnmap = {d: fn for d, fn in spec['apply']}
